@@ -41,6 +41,7 @@ def run(ctx) -> None:
         transp.check_connectives(ctx, t, "CONN")
         _check_transpiler_complete(ctx, t, "EXH3")
         transp.check_parentheses(ctx, t, "PAREN")
+        transp.check_bare_kinds(ctx, t, "PAREN")
         for m in p.modules.values():
             if m.name.startswith(f"aas_core_codegen.{t}"):
                 for f in m.functions.values():
